@@ -162,13 +162,17 @@ def r18_2(prog: Program, chk: Check) -> None:
                 if isinstance(st, ast.Expr) and isinstance(st.value, ast.Call) and last_attr(st.value) == "extend" and st.value.args and _is_attr(st.value.args[0], "cls", "default_value"):
                     adds_default = True
             rets = returns_of(cv)
-            ok = adds_default and len(rets) == 1 and isinstance(rets[0].value, ast.Name) and rets[0].value.id == acc
+            # the built-in default is the last *instance* that Options._get_value_for_no_default hands over: adding
+            # cls.default_value here as well doubles it (R18.6's list option has a non-empty default and decides that)
+            gv = prog.func("options", "Options._get_value_for_no_default")
+            default_is_an_instance = "option(option.default_value)" in norm(gv)
+            ok = (adds_default != default_is_an_instance) and len(rets) == 1 and isinstance(rets[0].value, ast.Name) and rets[0].value.id == acc
     chk.ob(
         "R18.2",
         "options::ConcatenatedOption.get_value_from_instances::all-then-default",
         ok,
         prog.site("options", cv),
-        "must append the value of every applicable instance in order, then the default, and return the accumulated list",
+        "must append the value of every applicable instance in order and return the accumulated list; the built-in default comes last and once - either as the last instance handed over by Options._get_value_for_no_default or appended here, not both",
     )
     ia = prog.func("options", "ConfigOption.is_applicable_to")
     r = returns_of(ia)
@@ -427,7 +431,7 @@ def _config_stacks(kind: str, thorough: bool):
                         for i, c in enumerate(combo)
                     ]
                     for cmd in ({}, {"names": ["cmd"]}):
-                        yield files, cmd, "names", [], True
+                        yield files, cmd, "names", ["dflt"], True
     elif kind == "disable_all":
         sect = list(itertools.product((None, True, False), (None, True, False)))  # (disable_all, the code's own setting)
         # code_a is on by default, code_off is an opt-in code (off by default)
